@@ -75,6 +75,48 @@ theorem run_refines (wid nthreads : Nat) (ops : List (Op Handle)) (hwf : WfRun i
     AllAgree info (CW.init wid nthreads) (specInit nthreads) ops :=
   run_refines_from info ops _ _ (init_inv wid nthreads) (init_bounds wid nthreads) (init_rel wid nthreads) hwf
 
+/-! ## every reachable state (every prefix of a history), and what C02 left open -/
+
+theorem wfRun_take : ∀ (k : Nat) (ops : List (Op Handle)) (c : CW), WfRun info c ops → WfRun info c (ops.take k)
+  | 0, _, _, _ => by simp only [List.take_zero]; trivial
+  | _ + 1, [], _, _ => by simp only [List.take_nil]; trivial
+  | k + 1, op :: rest, c, h => by
+    simp only [List.take_succ_cons]
+    exact ⟨h.1, h.2.1, wfRun_take k rest _ h.2.2⟩
+
+/-- EVERY REACHABLE STATE: after any prefix of a history that keeps the contract, the invariants hold and the model
+state is related to the spec state reached by the same prefix -/
+theorem inv_rel_every_prefix (wid nthreads : Nat) (ops : List (Op Handle)) (hwf : WfRun info (CW.init wid nthreads) ops)
+    (k : Nat) :
+    Inv (runBoth info (CW.init wid nthreads) (specInit nthreads) (ops.take k)).1 ∧
+    Rel (runBoth info (CW.init wid nthreads) (specInit nthreads) (ops.take k)).1
+      (runBoth info (CW.init wid nthreads) (specInit nthreads) (ops.take k)).2 :=
+  let h := run_refines info wid nthreads (ops.take k) (wfRun_take info k ops _ hwf)
+  ⟨h.1, h.2.1⟩
+
+/-- C02, the part `Props/C02.liveInv_flush_statement` / `liveInv_clear_update_statement` leave open, for every state a
+history within the contract reaches — flushes, `clearArch` and `update` included: every valid handle sits in exactly
+the row its location names (`LiveInv`), rows and location table are mutually consistent (`RowsOK`) and archetype
+keys are unique (`KeysOK`) -/
+theorem rows_live_every_prefix (wid nthreads : Nat) (ops : List (Op Handle))
+    (hwf : WfRun info (CW.init wid nthreads) ops) (k : Nat) :
+    Mustache.Proofs.Rows.LiveInv (runBoth info (CW.init wid nthreads) (specInit nthreads) (ops.take k)).1.w ∧
+    Mustache.Proofs.Rows.RowsOK (runBoth info (CW.init wid nthreads) (specInit nthreads) (ops.take k)).1.w ∧
+    Mustache.Proofs.Rows.KeysOK (runBoth info (CW.init wid nthreads) (specInit nthreads) (ops.take k)).1.w :=
+  let h := (inv_rel_every_prefix info wid nthreads ops hwf k).1
+  ⟨h.live, h.rows, h.keys⟩
+
+/-- `LiveInv` through the outermost `unlock` (the flush of every buffered pack), from any state that satisfies the
+invariants and is related to some spec state -/
+theorem liveInv_through_flush {c : CW} {s : WS} (hi : Inv c) (hr : Rel c s) (hd : c.w.lockDepth ≤ 1)
+    (hb' : Bounds (c.step info .unlock).1) : Mustache.Proofs.Rows.LiveInv (c.step info .unlock).1.w :=
+  (flush_refines info hi hr hd hb').1.live
+
+/-- `LiveInv` through `clearArch` and `update` under their contract -/
+theorem liveInv_through_clear_update {c : CW} {s : WS} (hi : Inv c) (hb : Bounds c) (hr : Rel c s) (op : Op Handle)
+    (hwf : OpWf c op) (hb' : Bounds (c.step info op).1) : Mustache.Proofs.Rows.LiveInv (c.step info op).1.w :=
+  (step_refines info hi hb hr op hwf hb').1.live
+
 /-! ## `create(Archetype&)` -/
 
 /-- `create(Archetype&)` is `create(mask, shared)` with the archetype's own key wherever archetype keys are unique
@@ -146,6 +188,19 @@ example :
 the theorem applies to it: all twelve results and callback lists agree -/
 example : AllAgree exInfo (CW.init 0 3) (specInit 3) exHistory :=
   (run_refines exInfo 0 3 exHistory (wfRun_of_check exInfo exHistory _ (by decide))).2.2
+
+/-- non-vacuity of `rows_live_every_prefix`: it applies to `exHistory`, e.g. at the state in the middle of the locked
+section (after 5 operations, with buffered creations) and right after the flush (after 8) — and those states are not
+trivial: three live entities after the flush -/
+example :
+    Mustache.Proofs.Rows.LiveInv (runBoth exInfo (CW.init 0 3) (specInit 3) (exHistory.take 5)).1.w ∧
+    Mustache.Proofs.Rows.LiveInv (runBoth exInfo (CW.init 0 3) (specInit 3) (exHistory.take 8)).1.w :=
+  ⟨(rows_live_every_prefix exInfo 0 3 exHistory (wfRun_of_check exInfo exHistory _ (by decide)) 5).1,
+   (rows_live_every_prefix exInfo 0 3 exHistory (wfRun_of_check exInfo exHistory _ (by decide)) 8).1⟩
+
+example : (runBoth exInfo (CW.init 0 3) (specInit 3) (exHistory.take 5)).1.w.lockDepth = 1 ∧
+    ((runBoth exInfo (CW.init 0 3) (specInit 3) (exHistory.take 8)).1.issued.filter
+      (runBoth exInfo (CW.init 0 3) (specInit 3) (exHistory.take 8)).1.w.isValid).length = 3 := by decide
 
 /-- the recycled creation really recycles: the handle issued fourth has the id of the first, version 1 -/
 example : (runBoth exInfo (CW.init 0 3) (specInit 3) exHistory).1.issued =
